@@ -55,8 +55,10 @@ def run(ck):
     # ---------- T2 ----------
     fs = gen_index_functions()
     d = os.path.join(ck.work, "irpkg")
-    e2e.write_module(d, {"main.go": "package main\n\n" + "\n".join(s for _, s, _, _ in fs) + "\n\nfunc main() {}\n"})
+    e2e.write_module(d, {"main.go": "package main\n\n" + "\n".join(s for _, s, _, _ in fs) +
+                         "\n\nfunc withDefer(p *int) (r int) {\n\tdefer func() { recover() }()\n\treturn *p\n}\n\nfunc main() {}\n"})
     terms = []       # (name, target pw, key, term, meta)
+    savemasks = []   # (target pw, second arguments of the sigsetjmp calls in a deferring function)
     untrans = []
     for pw, args in ((64, []), (32, ["-goos", "linux", "-goarch", "arm"])):
         rc, ir = vlib.sh([gen] + args + ["."], cwd=d, env=L.env(), timeout=600)
@@ -64,6 +66,10 @@ def run(ck):
             ck.correspondence_broken("verifgen-run-%d" % pw, ir[-1500:])
             continue
         fns = ll2v.split_functions(ir)
+        wd = fns.get("verifprog.withDefer")
+        if wd is not None:
+            sj = re.findall(r"call i32 @_*sigsetjmp\(ptr %\d+, i32 (\d+)\)", "\n".join(wd[1]))
+            savemasks.append((pw, sj))
         for name, src, kind, t in fs:
             f = fns.get("verifprog." + name)
             if f is None:
@@ -151,6 +157,31 @@ def run(ck):
             ck.violation("slice-bound-narrowed-before-runtime-check-32bit",
                          "IR of `%s` for 32-bit int narrows the 64-bit size with a plain trunc: make([]int32, int64(1)<<32+5) has length 5; a[0:int64(1)<<32+1] passes as a[0:1] (model: fit_int_truncation_refuted)" % src,
                          {"function": src, "int_bits": pw, "ir_term": term, "witness": "n = 2^32 + 1"})
+    # ---------- signal configuration: premise of fault_recoverable_repeatedly ----------
+    # savemask: second argument of the sigsetjmp emitted for a deferring function (IR); nodefer: the flags the
+    # runtime installs its SIGSEGV handler with on this platform (runtime/internal/clite/signal/signal_linux.go)
+    sm = None
+    if savemasks and all(len(sj) >= 1 and len(set(sj)) == 1 for _, sj in savemasks) and len({sj[0] for _, sj in savemasks}) == 1:
+        sm = savemasks[0][1][0] != "0"
+    nodefer = None
+    sigsrc = os.path.join(vlib.REPO, "runtime", "internal", "clite", "signal", "signal_linux.go")
+    if os.path.exists(sigsrc):
+        txt = open(sigsrc).read()
+        mconst = re.search(r"const\s+saNodefer\s*=\s*(0x[0-9a-fA-F]+|\d+)", txt)
+        flags_set = re.search(r"act\.flags\s*=\s*([^\n]+)", txt)
+        nodefer = bool(mconst and int(mconst.group(1), 0) == 0x40000000 and flags_set and "saNodefer" in flags_set.group(1))
+    else:
+        nodefer = False          # generic signal.go: default flags
+    if sm is None:
+        ck.obligations.append(("gen_signal_config_recoverable", False, "no sigsetjmp call found in the IR of a deferring function: %s" % savemasks))
+        ck.broken.append("obligation:gen_signal_config_recoverable (sigsetjmp not found)")
+    else:
+        rc, out = ck.coq_run("From LLGoV Require Import C03.Model.\nDefinition CFG := Eval vm_compute in recoverable_config %s %s.\nPrint CFG.\n" % (
+            "true" if nodefer else "false", "true" if sm else "false"), "c03_sig")
+        okc = rc == 0 and re.search(r"CFG\s*=\s*true", out) is not None
+        ck.obligations.append(("gen_signal_config_recoverable (SA_NODEFER=%s, sigsetjmp savemask=%s)" % (nodefer, sm), okc, "vm_compute recoverable_config"))
+        if not okc:
+            ck.broken.append("obligation:gen_signal_config_recoverable nodefer=%s savemask=%s" % (nodefer, sm))
     ck.phase("T2 done")
 
     # ---------- E ----------
